@@ -191,7 +191,28 @@ void gen_samples(const psig_t *ps, uint64_t vseed, int64_t sid, uint32_t n, uint
             if (t->kind == 2) {
                 if (bits == 32) { float f = (float) (id % 100000); uint32_t u; memcpy(&u, &f, 4); v = u; } else { double d = (double) id; memcpy(&v, &d, 8); }
             } else v = (uint64_t) id & mask;
-        } else if (pat == PAT_WALK || pat == PAT_SMALL) {
+        } else if (pat == PAT_OFFSET && bits >= 16) {
+            /* a large constant offset with a few LSB of noise: |mean| >> std, the input on which a
+             * numerically careless variance cancels */
+            uint64_t hs = vmix(ps->pseed, 0x0ff5e7ULL);
+            if (t->kind == 2) {
+                if (bits == 32) {
+                    float f = (float) (8388000.0 + (double) (hs % 500) + (double) ((hv >> 20) % 5));
+                    if (hs & 0x10000) f = -f;
+                    uint32_t u; memcpy(&u, &f, 4); v = u;
+                } else {
+                    double d = 1.0e9 * (double) (1 + (hs >> 20) % 1000) + (((double) (hv >> 11) / 9007199254740992.0) * 2.0 - 1.0);
+                    if (hs & 0x10000) d = -d;
+                    memcpy(&v, &d, 8);
+                }
+            } else {
+                int w = bits > 32 ? 44 : bits;
+                int64_t top = (t->kind == 1 ? (1LL << (w - 1)) : (1LL << w)) - 16;
+                int64_t val = top - (int64_t) (hs % 1024) + (int64_t) ((hv >> 20) % 7);
+                if (t->kind == 1 && (hs & 0x10000)) val = -val;
+                v = (uint64_t) val & mask;
+            }
+        } else if (pat == PAT_WALK || pat == PAT_SMALL || pat == PAT_OFFSET) {
             if (t->kind == 2) {
                 double level = pat == PAT_SMALL ? 0.0 : (double) ((int) (hb % 2001) - 1000);
                 double noise = ((double) (hv >> 11) / 9007199254740992.0) * 2.0 - 1.0;
